@@ -3,7 +3,7 @@
 //! all three renderers on shared QR codes).  Events carry (tid, seq); no cross-thread order is ever inferred.
 use crate::common::*;
 use crate::gen::*;
-#[cfg(feature = "render")]
+#[cfg(feature = "image")]
 use crate::scen_render::*;
 use fast_qr::{QRBuilder, QRCode};
 use rand::Rng;
@@ -126,7 +126,7 @@ fn fnv(data: &[u8]) -> [u32; 2] {
     [(h & 0x7fff_ffff) as u32, ((h >> 32) & 0x7fff_ffff) as u32]
 }
 
-#[cfg(feature = "render")]
+#[cfg(feature = "image")]
 /// Seeded concurrent programs: `nthreads` threads; a shared builder and shared QR codes; private builders mutated between builds.
 pub fn threads(sink: &mut Sink, seed: u64, thorough: bool, grp0: u64) {
     let mut r = rng(seed, 41);
@@ -409,7 +409,7 @@ pub fn walk(sink: &mut Sink, seed: u64, thorough: bool, grp0: u64) {
     }
 }
 
-#[cfg(feature = "render")]
+#[cfg(feature = "image")]
 /// Soak: the same builder built, and the same code rendered, many times in one process on one thread; every result must equal the
 /// first one (a counter that wraps, a pool that runs dry, a cache that fills up).  One event per block of 1 000 calls.
 pub fn soak(sink: &mut Sink, seed: u64, thorough: bool) {
